@@ -376,7 +376,8 @@ pub(super) fn dagarg_list(p: &mut Parser) -> CompletedMarker {
 // DagArg ::= Value ( ":" VARNAME ) | VARNAME
 pub(super) fn dagarg(p: &mut Parser) -> CompletedMarker {
     p.start_node(SyntaxKind::DagArg);
-    if p.eat_if(TokenKind::VarName) {
+    if p.at(TokenKind::VarName) {
+        var_name(p);
         p.finish_node();
         return CompletedMarker::Success;
     }
